@@ -23,6 +23,9 @@ type SpecData struct {
 	Continue    bool `json:"continue,omitempty"`
 	ClearFaults bool `json:"clearFaults,omitempty"` // continuation with the fault plan cleared (transient failure)
 	Close       bool `json:"close,omitempty"`
+	// CloseAfterRunnerFailure: App.Close is also called when Run failed because an application
+	// runner returned an error (the container was ready by then).
+	CloseAfterRunnerFailure bool `json:"closeAfterRunnerFailure,omitempty"`
 	// GetPaths: configuration paths to read through App.Get after Run.
 	GetPaths []string `json:"getPaths,omitempty"`
 	Parallel bool     `json:"parallel,omitempty"`
